@@ -1,5 +1,4 @@
-import PebblesVerif.Proofs.Merge
-import PebblesVerif.Proofs.MergeWitness
+import PebblesVerif.Proofs.MergeTop
 /-!
 # C03 — the merged schema is exactly the union of the service schemas
 
@@ -16,74 +15,6 @@ open PebblesVerif.Gen.Merge
 /-- the source has the shape the model was written for, with repairs 0001–0005 applied -/
 theorem C03_facts : facts = expected := by decide
 
-/-- all definitions named `Node` across the inputs have the same items -/
-def NodeAgree (ins : List MergeInput) : Prop :=
-  ∀ i ∈ ins, ∀ j ∈ ins, ∀ x ∈ i.schema.types, ∀ y ∈ j.schema.types,
-    x.name = nodeInterfaceName → y.name = nodeInterfaceName → Covers x y
-
-instance (d r : TypeDef) : Decidable (Covers d r) := by unfold Covers; infer_instance
-instance (ins : List MergeInput) : Decidable (NodeAgree ins) := by unfold NodeAgree; infer_instance
-instance (S : Schema) : Decidable (RootsAreObjects S) := by unfold RootsAreObjects; infer_instance
-instance (S : Schema) : Decidable (TypesNodup S) := by unfold TypesNodup; infer_instance
-instance (l : List Schema) : Decidable (DirectivesAgree l) := by unfold DirectivesAgree; infer_instance
-instance (l : List Schema) (R : Schema) : Decidable (SchemaUnion.Superset l R) := by unfold SchemaUnion.Superset; infer_instance
-instance {ε α : Type} (x : Except ε α) (P : α → Prop) [∀ a, Decidable (P a)] : Decidable (∃ a, x = .ok a ∧ P a) :=
-  match x with
-  | .ok a => if h : P a then isTrue ⟨a, rfl, h⟩ else isFalse (fun ⟨b, hb, hp⟩ => by cases hb; exact h hp)
-  | .error _ => isFalse (fun ⟨_, hb, _⟩ => by cases hb)
-
-theorem nodeAgree_inInputs {i0 : MergeInput} {rest : List MergeInput} (h : NodeAgree (i0 :: rest))
-    {d x : TypeDef} (hd : InInputs (i0 :: rest) d) (hx : x ∈ i0.schema.types ∨ InInputs rest x)
-    (hdn : d.name = nodeInterfaceName) (hxn : x.name = nodeInterfaceName) : Covers d x := by
-  obtain ⟨i, hi, hdi⟩ := hd
-  rcases hx with hx | ⟨j, hj, hxj⟩
-  · exact h i hi i0 List.mem_cons_self d hdi x hx hdn hxn
-  · exact h i hi j (List.mem_cons_of_mem _ hj) d hdi x hxj hdn hxn
-
-/-- what `mergeSchema` is made of, once it succeeded -/
-theorem mergeSchema_ok {i0 : MergeInput} {rest : List MergeInput} {R : Schema}
-    (h : mergeSchema E (i0 :: rest) = .ok R) :
-    ∃ types, foldInputs E i0.schema.types i0.schema i0.schema rest = .ok types ∧
-      R.types = refillUnions (mergePossibleTypes ((i0 :: rest).map (·.schema)) types) types ∧
-      R.directives = mergeDirectives ((i0 :: rest).map (·.schema)) := by
-  simp only [mergeSchema, bind, Except.bind, pure, Except.pure] at h
-  split at h
-  · cases h
-  · rename_i types ht
-    cases h
-    exact ⟨types, ht, rfl, rfl⟩
-
-/-- every non-`__` definition of every input is covered by a definition of the result (for a
-    definition named `Node`: if the inputs agree on `Node`) -/
-theorem covered {ins : List MergeInput} {R : Schema} (h : mergeSchema E ins = .ok R)
-    (hroot : ∀ i ∈ ins, RootsAreObjects i.schema) {i : MergeInput} (hi : i ∈ ins) {d : TypeDef}
-    (hd : d ∈ i.schema.types) (hb : isBuiltinName d.name = false)
-    (hnode : d.name = nodeInterfaceName → NodeAgree ins) : ∃ r ∈ R.types, Covers d r := by
-  cases ins with
-  | nil => cases h
-  | cons i0 rest =>
-    obtain ⟨types, ht, hR, _⟩ := mergeSchema_ok h
-    have IF := foldInputs_spec rest _ _ _ _ ht (fun i hi => hroot i (List.mem_cons_of_mem _ hi))
-    have : ∃ r ∈ types, Covers d r := by
-      rcases List.mem_cons.mp hi with rfl | hi'
-      · exact IF.keeps d hd
-      · apply IF.adds i hi' d hd hb
-        intro hN x hx hxN
-        exact nodeAgree_inInputs (hnode hN) ⟨i, hi, hd⟩ hx hN hxN
-    obtain ⟨r, hr, hc⟩ := this
-    refine ⟨_, ?_, Covers.trans hc (refill_covers (mergePossibleTypes ((i0 :: rest).map (·.schema)) types) r)⟩
-    rw [hR]
-    exact List.mem_map_of_mem (f := fun d => if d.kind == .union && d.members.isEmpty then
-      { d with members := assocGet (mergePossibleTypes ((i0 :: rest).map (·.schema)) types) d.name } else d) hr
-
-/-- keys of the result are distinct when those of the first input are -/
-theorem result_nodup {i0 : MergeInput} {rest : List MergeInput} {R : Schema} (h : mergeSchema E (i0 :: rest) = .ok R)
-    (hroot : ∀ i ∈ i0 :: rest, RootsAreObjects i.schema) (hnd : TypesNodup i0.schema) : (R.types.map (·.name)).Nodup := by
-  obtain ⟨types, ht, hR, _⟩ := mergeSchema_ok h
-  have IF := foldInputs_spec rest _ _ _ _ ht (fun i hi => hroot i (List.mem_cons_of_mem _ hi))
-  rw [hR, refillUnions_names]
-  exact IF.nodup hnd
-
 /-
 FULL STATEMENT (false of the code, see `C03_superset_false_node`, `C03_superset_false_directive`):
   theorem C03_superset (h : mergeSchema facts ins = .ok R) (hroot : ∀ i ∈ ins, RootsAreObjects i.schema) :
@@ -98,23 +29,7 @@ theorem C03_superset_partial (ins : List MergeInput) (R : Schema) (h : mergeSche
     (hroot : ∀ i ∈ ins, RootsAreObjects i.schema) (hnode : NodeAgree ins)
     (hdir : DirectivesAgree (ins.map (·.schema))) : SchemaUnion.Superset (ins.map (·.schema)) R := by
   rw [C03_facts] at h
-  cases ins with
-  | nil => cases h
-  | cons i0 rest =>
-    obtain ⟨types, ht, hR, hD⟩ := mergeSchema_ok h
-    constructor
-    · intro S hS d hd hb it hit
-      obtain ⟨i, hi, rfl⟩ := List.mem_map.mp hS
-      obtain ⟨r, hr, hc⟩ := covered h hroot hi hd hb (fun _ => hnode)
-      simp only [typesItems, List.mem_flatMap]
-      exact ⟨r, hr, hc it hit⟩
-    · intro S hS dd hdd
-      rw [hD]
-      unfold mergeDirectives
-      apply mergeDirectives_keeps
-      · intro S' hS' d' hd' hn
-        exact hdir S' hS' S hS d' hd' dd hdd hn
-      · exact Or.inr ⟨S, hS, hdd⟩
+  exact superset_E ins R h hroot hnode hdir
 
 /-- C03, nothing invented: every item of the merged schema is an item of some input (a member of
     a refilled "broken" union comes from some input's `PossibleTypes` of that union), every
@@ -122,31 +37,7 @@ theorem C03_superset_partial (ins : List MergeInput) (R : Schema) (h : mergeSche
 theorem C03_no_invention (ins : List MergeInput) (R : Schema) (h : mergeSchema facts ins = .ok R)
     (hroot : ∀ i ∈ ins, RootsAreObjects i.schema) : NoInvention (ins.map (·.schema)) R := by
   rw [C03_facts] at h
-  cases ins with
-  | nil => cases h
-  | cons i0 rest =>
-    obtain ⟨types, ht, hR, hD⟩ := mergeSchema_ok h
-    have IF := foldInputs_spec rest _ _ _ _ ht (fun i hi => hroot i (List.mem_cons_of_mem _ hi))
-    constructor
-    · intro it hit
-      rw [hR] at hit
-      simp only [typesItems, List.mem_flatMap] at hit
-      obtain ⟨r', hr', hit'⟩ := hit
-      obtain ⟨d, hd, rfl⟩ := mem_refillUnions hr'
-      rcases refill_items _ d it hit' with hi | ⟨m, rfl, hm⟩
-      · left
-        rcases IF.noInv d hd it hi with ⟨d0, hd0, hi0⟩ | ⟨d0, ⟨j, hj, hdj⟩, hi0⟩
-        · exact ⟨i0.schema, by simp, by simp only [typesItems, List.mem_flatMap]; exact ⟨d0, hd0, hi0⟩⟩
-        · exact ⟨j.schema, List.mem_map_of_mem (List.mem_cons_of_mem _ hj),
-            by simp only [typesItems, List.mem_flatMap]; exact ⟨d0, hdj, hi0⟩⟩
-      · right
-        exact ⟨d.name, m, rfl, mem_mergePossibleTypes hm⟩
-    · intro dd hdd
-      rw [hD] at hdd
-      unfold mergeDirectives at hdd
-      rcases mergeDirectives_noInv _ _ _ hdd with h' | h'
-      · cases h'
-      · exact h'
+  exact noInvention_E ins R h hroot
 
 /-- C03, Node types: a type that some service declares as an object implementing `Node` appears
     exactly once in the merged schema, as an object implementing `Node`, and its fields (name,
@@ -163,54 +54,10 @@ theorem C03_node_union (ins : List MergeInput) (R : Schema) (h : mergeSchema fac
         ∃ g ∈ r.fields, g.name = f.name ∧ g.type = f.type ∧ g.default = f.default) ∧
       (∀ g ∈ r.fields, isBuiltinName g.name = false →
         ∃ j ∈ ins, ∃ d' ∈ j.schema.types, d'.name = T ∧ ∃ f ∈ d'.fields, f.name = g.name ∧ f.type = g.type ∧ f.default = g.default) := by
-  have hNI := C03_no_invention ins R h hroot
   rw [C03_facts] at h
-  obtain ⟨r, hr, hc⟩ := covered h hroot hi hd (hdn ▸ hb) (fun hN => absurd (hdn ▸ hN) hT)
-  have hty := type_item_mem.mp (hc _ (type_item_mem.mpr ⟨rfl, rfl⟩))
-  have hrn : r.name = T := hty.1.trans hdn
-  have hrk : r.kind = .object := hty.2.trans hdk
-  have hnodup : (R.types.map (·.name)).Nodup := by
-    cases ins with
-    | nil => cases h
-    | cons i0 rest => exact result_nodup h hroot (hnd i0 List.mem_cons_self)
-  have hiface : implementsNode r = true := by
-    have : Item.iface d.name nodeInterfaceName ∈ defItems d :=
-      iface_item_mem.mpr ⟨rfl, by rw [hdk]; rfl, by simpa [implementsNode] using hdN⟩
-    have := iface_item_mem.mp (hc _ this)
-    simpa [implementsNode] using this.2.2
-  refine ⟨r, hr, hrn, hrk, hiface, ?_, ?_, ?_⟩
-  · rw [hnodup.count, if_pos (hrn ▸ List.mem_map_of_mem hr)]
-  · intro j hj d' hd' hd'n f hf hfb
-    obtain ⟨r', hr', hc'⟩ := covered h hroot hj hd' (hd'n ▸ hb) (fun hN => absurd (hd'n ▸ hN) hT)
-    have hty' := type_item_mem.mp (hc' _ (type_item_mem.mpr ⟨rfl, rfl⟩))
-    have : r' = r := eq_of_nodup_name hnodup hr' hr (by rw [hty'.1, hd'n, hrn])
-    subst this
-    have hk' : d'.kind = .object := hty'.2.symm.trans hrk
-    have := field_item_mem.mp (hc' _ (field_item_mem.mpr ⟨rfl, by rw [hk']; rfl, f, hf, hfb, rfl, rfl, rfl⟩))
-    obtain ⟨_, _, g, hg, _, h1, h2, h3⟩ := this
-    exact ⟨g, hg, h1, h2, h3⟩
-  · intro g hg hgb
-    have hit : Item.field T g.name g.type g.default ∈ typesItems R.types := by
-      simp only [typesItems, List.mem_flatMap]
-      exact ⟨r, hr, field_item_mem.mpr ⟨hrn, by rw [hrk]; rfl, g, hg, hgb, rfl, rfl, rfl⟩⟩
-    rcases hNI.1 _ hit with ⟨S, hS, hSi⟩ | ⟨_, _, hcontra, _⟩
-    · obtain ⟨j, hj, rfl⟩ := List.mem_map.mp hS
-      simp only [typesItems, List.mem_flatMap] at hSi
-      obtain ⟨d', hd', hd'i⟩ := hSi
-      obtain ⟨h1, _, f, hf, _, h2, h3, h4⟩ := field_item_mem.mp hd'i
-      exact ⟨j, hj, d', hd', h1, f, hf, h2, h3, h4⟩
-    · cases hcontra
+  exact nodeUnion_E ins R h hroot hnd T hb hT i hi d hd hdn hdk hdN
 
 /-! ## the full statement is false of the code: witnesses (evaluated by the kernel) -/
-
-/-- the conclusion of the full superset statement, with the facts of every loaded schema as the
-    only hypotheses -/
-def SupersetFailsAt (F : Facts) (ins : List MergeInput) : Prop :=
-  (∀ i ∈ ins, RootsAreObjects i.schema) ∧ (∀ i ∈ ins, TypesNodup i.schema) ∧
-    ∃ R, mergeSchema F ins = .ok R ∧ ¬ SchemaUnion.Superset (ins.map (·.schema)) R
-
-instance (F : Facts) (ins : List MergeInput) : Decidable (SupersetFailsAt F ins) := by
-  unfold SupersetFailsAt; infer_instance
 
 /-- NEGATION of the full statement, repaired tree: two services with different `Node` interfaces
     are accepted and the later one's `Node.rev` is gone (open finding C03-node-def-differs) -/
